@@ -248,3 +248,27 @@ def finite_closure(prog, pred):
             if re.match(r'^Not\(.*is_finite\(.*\)\)$', r):
                 return True
     return False
+
+
+def var_chain_reaches(body, name, target, depth=6):
+    """Does the user variable `name` (any local bound to it) derive, through a chain of named variables
+    (loop iterators, `?` temporaries, pattern bindings), from the variable `target`?"""
+    ov = Origin(body, stop_at_vars=True)
+    seen = set()
+    work = [name]
+    for _ in range(depth):
+        nxt = []
+        for n in work:
+            if n in seen:
+                continue
+            seen.add(n)
+            for l in body.var_local(n):
+                r = render(ov.of_local(l))
+                for m in re.findall(r'var:(\w+)', r):
+                    if m == target:
+                        return True
+                    nxt.append(m)
+        work = nxt
+        if not work:
+            break
+    return False
